@@ -51,7 +51,8 @@ def slice (b : Bytes) (lo : Int) (hi : Option Int) : Bytes :=
   ((b.take (match hi with | some h => h.toNat | none => b.length)).drop lo.toNat)
 
 /-- what `transferReadSendData` puts on the wire for buffered read bytes `data` and TLS bytes `tls`. -/
-def encodeRead (data tls : Bytes) : Bytes := buildHead data.length tls.length ++ data ++ tls
+def encodeRead (data tls : Bytes) : Bytes :=
+  (if readHeadIsDataThenTls then buildHead data.length tls.length else buildHead tls.length data.length) ++ data ++ tls
 
 /-- `transferReadRecvData`: (buffered read bytes, TLS bytes, unread rest of the stream). -/
 def decodeRead (stream : Bytes) : Option (Bytes × Bytes × Bytes) :=
@@ -64,13 +65,16 @@ def decodeRead (stream : Bytes) : Option (Bytes × Bytes × Bytes) :=
       some (slice p (readDataLo s1 s2) (readDataHi s1 s2), slice p (readTlsLo s1 s2) (readTlsHi s1 s2), rest)
 
 /-- what `transferWriteSendData` puts on the wire. -/
-def encodeWrite (id : Nat) (data : Bytes) : Bytes := buildHead data.length id ++ data
+def encodeWrite (id : Nat) (data : Bytes) : Bytes :=
+  (if writeSendLenFirst then buildHead data.length id else buildHead id data.length) ++ data
 
 /-- `transferWriteRecvData`: (connection id, write-buffer bytes, unread rest). -/
 def decodeWrite (stream : Bytes) : Option (Nat × Bytes × Bytes) :=
   match recvHead stream with
   | none => none
-  | some (size, id, r) =>
+  | some (f1, f2, r) =>
+    let size := if writeRecvSizeFirst then f1 else f2
+    let id := if writeRecvSizeFirst then f2 else f1
     match recvMsg r size with
     | none => none
     | some (p, rest) => some (id, p, rest)
